@@ -72,6 +72,8 @@ type runRec struct {
 
 	listenerCalls  [][]int32 // [bar][listener ordinal]
 	listenerAtWait [][]int32 // the same counters read the moment Progress.Wait returned
+	wcMu           sync.Mutex
+	wcTemplates    map[[2]int]decor.WC
 	listenerN      []int
 	renderK        []int64 // per bar render counter (marker)
 
@@ -186,6 +188,9 @@ func (w *memWriter) Write(p []byte) (int, error) {
 	rr.outs[ix].T1 = t1
 	rr.mu.Unlock()
 	if fail {
+		if rr.sc.Seed%3 == 0 && len(p) > 1 {
+			return len(p) / 2, errOut // a partial write that then fails (disk full, peer gone)
+		}
 		return 0, errOut
 	}
 	return len(p), nil
@@ -308,6 +313,26 @@ func (rr *runRec) fireTrigger(tr *Trigger) {
 	}
 }
 
+// runningAfterStop: right after the cancellation / Shutdown call has returned
+// every bar has stopped: IsRunning is false at once (a bar's context is derived
+// from the container's), whether or not its goroutine was scheduled since.
+func (rr *runRec) runningAfterStop() string {
+	n, running := 0, 0
+	first := -1
+	for i := range rr.sc.Bars {
+		if b := rr.bar(i); b != nil {
+			n++
+			if b.IsRunning() {
+				running++
+				if first < 0 {
+					first = i
+				}
+			}
+		}
+	}
+	return fmt.Sprintf("stopped:%d/%d/%d", running, n, first)
+}
+
 // ---------------------------------------------------------------- decorators
 
 type listenerDec struct {
@@ -372,6 +397,26 @@ func (rr *runRec) buildDec(bi int, side string, ord int, d DecSpec) decor.Decora
 	wc := decor.WC{W: d.W, C: d.C & 3}
 	if d.Sync {
 		wc.C |= decor.DSyncWidth
+	}
+	if d.Kind == "sync" {
+		wc.C |= decor.DSyncWidth
+	}
+	if rr.sc.Seed%4 == 1 {
+		// a caller who keeps one initialised WC per configuration and hands (copies
+		// of) it to several constructors: every decorator still gets a column of its own
+		key := [2]int{wc.W, wc.C}
+		rr.wcMu.Lock()
+		if rr.wcTemplates == nil {
+			rr.wcTemplates = map[[2]int]decor.WC{}
+		}
+		t, ok := rr.wcTemplates[key]
+		if !ok {
+			t = wc
+			t.Init()
+			rr.wcTemplates[key] = t
+		}
+		rr.wcMu.Unlock()
+		wc = t
 	}
 	var x decor.Decorator
 	var calls int64
@@ -765,9 +810,11 @@ func (rr *runRec) doOp(client, idx int, op Op) {
 	case "cancel":
 		rr.cancelled.Store(true)
 		rr.cancel()
+		res = rr.runningAfterStop()
 	case "shutdown":
 		rr.cancelled.Store(true)
 		rr.p.Shutdown()
+		res = rr.runningAfterStop()
 	case "release":
 		rr.releaseDelay()
 	case "waitcycles":
